@@ -15,6 +15,7 @@ import (
 	"reflect"
 	"runtime/debug"
 	"strings"
+	"time"
 )
 
 type inputVal struct {
@@ -196,6 +197,41 @@ func Reach(label string) { events = append(events, Event{Kind: "reach", Label: l
 func Observe(group, digest string) {
 	events = append(events, Event{Kind: "observe", Label: group, Detail: digest})
 }
+
+// Budget states a bound on the work done up to BudgetEnd: at most `steps` SSA instructions on any path
+// under the executor (deterministic count; the path ends as a violation of `label` when it is exceeded).
+// Natively - where a flagged witness is confirmed - the same stretch may take at most nsPerStep
+// nanoseconds per allowed step of wall-clock time (one SSA instruction is well under a nanosecond of
+// native work, so this only trips on a blow-up, never on scheduling noise of a short computation).
+func Budget(label string, steps int) {
+	budgetLabel, budgetSteps, budgetStart = label, steps, time.Now()
+	// a blow-up need not be run to completion: far beyond the allowance the process is stopped (the
+	// replay driver records the crash for this witness and carries on with the next one)
+	budgetDog = time.AfterFunc(time.Second+100*time.Duration(steps*nsPerStep), func() {
+		panic("zzverif: work bound " + label + " exceeded a hundredfold, giving up")
+	})
+}
+
+const nsPerStep = 20
+
+// BudgetEnd ends the stretch; under the executor it returns the instructions used.
+func BudgetEnd() int {
+	if budgetLabel != "" && time.Since(budgetStart) > time.Duration(budgetSteps*nsPerStep) {
+		events = append(events, Event{Kind: "assert-fail", Label: budgetLabel, Class: classes[budgetLabel]})
+	}
+	if budgetDog != nil {
+		budgetDog.Stop()
+	}
+	budgetLabel = ""
+	return 0
+}
+
+var (
+	budgetLabel string
+	budgetSteps int
+	budgetStart time.Time
+	budgetDog   *time.Timer
+)
 
 // Freeze marks everything reachable from x as read-only from now on.  Natively
 // the caller passes a snapshot comparison instead (FreezeNative).
